@@ -214,6 +214,22 @@ class Lib:
         b = ex.truth(ex.eval(node.args[1], st))
         return values_equal(a, b)
 
+    def sf_prefix_sums(self, ex, node, st):
+        """prefix_sums(seq)[i] = seq[0] + ... + seq[i]  (defining recurrence as axioms)."""
+        seq = ex.as_seq(ex.eval(node.args[0], st), st)
+        c = self.partial_sums(ex, st, seq)
+        return Seq(seq.n, lambda i: c(to_z3(i)), "array")
+
+    def sf_close(self, ex, node, st):
+        """Equality of reals (SMT reading); equality up to rounding in the native reading."""
+        return values_equal(as_real(ex.eval(node.args[0], st)), as_real(ex.eval(node.args[1], st)))
+
+    def sf_ceil_int(self, ex, node, st):
+        return self.b_math_ceil(ex, st, [ex.eval(node.args[0], st)], {}, node)
+
+    def sf_floor_int(self, ex, node, st):
+        return self.b_math_floor(ex, st, [ex.eval(node.args[0], st)], {}, node)
+
     def sf_cut(self, ex, node, st):
         """Ghost assertion: proved here (obligation), then available as a hypothesis."""
         saved = ex.checking
@@ -361,6 +377,12 @@ class Lib:
                     else:
                         raise EngineError("%s:L%d: mutated argument is not a plain variable" % (ex.fnname, node.lineno))
         fr.locals["result"] = result
+        for gname, gty in getattr(c, "ghost_results", {}).items():
+            facts = []
+            fr.locals[gname] = fresh(parse_type(gty), gname, (), facts)
+            for f in facts:
+                if not isinstance(f, tuple):
+                    st.assume(f)
         for e in c.ensures:
             st.assume(ev(e))
         return result
@@ -1087,6 +1109,8 @@ class Lib:
         return self.all_of(ex, st, ex.as_seq(args[0], st))
 
     def b_np_missing(self, ex, st, args, kwargs, node):
+        if hasattr(self.ctx._numpy, "alltrue"):
+            return self.all_of(ex, st, ex.as_seq(args[0], st))
         ex.oblige(st, False, "attribute-defined", node, "numpy %s has no such attribute" % self.ctx.numpy_version)
         st.assume(False)
         return None
